@@ -40,12 +40,24 @@ type nilValReturnChecker struct {
 	astwalk.WalkHandler
 	ctx *linter.CheckerContext
 
-	fn *ast.FuncDecl
+	fn   *ast.FuncDecl
+	lits []*ast.FuncLit // Function literals of fn.
 }
 
 func (c *nilValReturnChecker) EnterFunc(fn *ast.FuncDecl) bool {
 	c.fn = fn
-	return fn.Body != nil
+	c.lits = c.lits[:0]
+	if fn.Body == nil {
+		return false
+	}
+	// Collected once per function (outermost first).
+	ast.Inspect(fn.Body, func(n ast.Node) bool {
+		if lit, ok := n.(*ast.FuncLit); ok {
+			c.lits = append(c.lits, lit)
+		}
+		return true
+	})
+	return true
 }
 
 func (c *nilValReturnChecker) VisitStmt(stmt ast.Stmt) {
@@ -98,14 +110,13 @@ func (c *nilValReturnChecker) becomesNonNilInterface(ret *ast.ReturnStmt, i int)
 	}
 	sig, _ := c.ctx.TypeOf(c.fn.Name).(*types.Signature)
 	// The innermost function literal that contains ret, if any.
-	ast.Inspect(c.fn.Body, func(n ast.Node) bool {
-		if lit, ok := n.(*ast.FuncLit); ok && lit.Pos() <= ret.Pos() && ret.End() <= lit.End() {
+	for _, lit := range c.lits {
+		if lit.Pos() <= ret.Pos() && ret.End() <= lit.End() {
 			if litSig, ok := c.ctx.TypeOf(lit).(*types.Signature); ok {
 				sig = litSig
 			}
 		}
-		return true
-	})
+	}
 	if sig == nil || sig.Results().Len() != len(ret.Results) {
 		return false
 	}
